@@ -12,6 +12,9 @@ MAP = [  # (substring of meta['function'], checks to run)
     ('resolve_jsr_nv', ['C06']), ('fill_from_lockfile', ['C06']), ('validate_jsr_specifier', ['C06']), ('new_source_with_text', ['C20']),
     ('parse_module_source_and_info', ['C20', 'C05']), ('fill_module_dependencies', ['C01']), ('includes', ['C08']),
     ('transform_package', ['C12']), ('build_fast_check_type_graph', ['C12']),
+    ('resolve_pending_jsr_specifiers', ['C07', 'C03', 'C06']), ('handle_jsr_registry_pending_content_loads', ['C03', 'C20']),
+    ('load_with_redirect_count', ['C07', 'C03', 'C01']), ('visit_module_dependencies', ['C01', 'C07']), ('mark_jsr_dep', ['C07']), ('mark_npm_dep', ['C07']),
+    ('maybe_mark_dep', ['C07', 'C03']), ('Builder::resolve_pending', ['C03']), ('ensure_package', ['C07']), ('add_dependency', ['C07']),
 ]
 only = sys.argv[1:]
 rows = []
